@@ -3,7 +3,7 @@ from fractions import Fraction as F
 
 from hypothesis import strategies as st
 
-from geomdl import helpers, knotvector, BSpline
+from geomdl import helpers, knotvector, BSpline, utilities
 
 from vp import gen, build, ref
 from vp.core import SubCheck
@@ -231,6 +231,11 @@ def check_generate(case, ctx):
     ctx.check(list(again) == keep, "generate-depends-on-earlier-result",
               "generate(%d, %d, clamped=%r) called again after the caller edited the first result returns %r, first time %r" % (p, n, clamped, again, keep))
     kv = keep
+    # the documented names in geomdl.utilities give the same vector, keyword included
+    via = utilities.generate_knot_vector(p, n, clamped=clamped)
+    ctx.check(list(via) == keep, "generate-utilities-name",
+              "utilities.generate_knot_vector(%d, %d, clamped=%r) returns %r, knotvector.generate %r" % (p, n, clamped, via, keep))
+    ctx.check(utilities.check_knot_vector(p, tuple(kv), n) is True, "generate-check", "utilities.check_knot_vector rejects the generated vector given as a tuple")
     # usable by a curve
     c = BSpline.Curve()
     c.degree = p
@@ -263,6 +268,11 @@ def check_normalize_reject(case, ctx):
         ctx.check(abs(F(x) - r) <= F(1, 10 ** 15), "normalize-affine", "normalize(%r) = %r, affine map gives %r" % (k, x, float(r)))
     ctx.check(knotvector.check(p, kv, n) is True, "check-valid", "check rejects a valid vector %r (p=%d, n=%d)" % (kv, p, n))
     ctx.check(knotvector.check(p, out, n) is True, "check-valid-normalized", "check rejects the normalised vector")
+    # documented input type: list or tuple; documented second names in geomdl.utilities
+    ctx.check(knotvector.check(p, tuple(kv), n) is True, "check-valid", "check rejects a valid vector given as a tuple %r (p=%d, n=%d)" % (kv, p, n))
+    ctx.check(utilities.check_knot_vector(p, list(kv), n) is True, "check-valid", "utilities.check_knot_vector rejects a valid vector")
+    ctx.check(list(knotvector.normalize(tuple(kv))) == list(out), "normalize-tuple", "normalize(tuple) differs from normalize(list)")
+    ctx.check(list(utilities.normalize_knot_vector(list(kv))) == list(out), "normalize-tuple", "utilities.normalize_knot_vector differs from knotvector.normalize")
     bad = case["bad"]
     if bad == "none":
         return
@@ -307,7 +317,7 @@ def check_normalize_reject(case, ctx):
             o.knotvector_v = [0.0, 0.0, 1.0, 1.0]
         before = None
         if holds_valid:
-            setattr(o, attr, list(kv))
+            setattr(o, attr, tuple(kv) if case["pos"] % 2 else list(kv))
             stored = list(getattr(o, attr))
             prm = {"curve": 0.375, "surface_u": (0.375, 0.5), "surface_v": (0.5, 0.375), "volume_w": (0.5, 0.5, 0.375)}[kind]
             before = (stored, list(o.evaluate_single(prm)))
